@@ -609,4 +609,33 @@ theorem accessors_dialect_free (v : Nat) :
   · intro h; exact (C15.e48_intToPacked_spec v).1 h
   · intro h; exact (C15.e64_intToPacked_spec v).1 h
 
+/-- no EUI-64 pattern has the group count and digit counts of an EUI-48 pattern either -/
+private theorem cross' : ∀ g ∈ eui64Formats, ∀ f ∈ macFormats, g.groups = f.groups → g.hi < f.lo ∨ f.hi < g.lo := by
+  decide
+
+/-- with an explicit version, a spelling of the other family is rejected (AddrFormatError) -/
+theorem spellings_other_version (c : Char) (toks : List (List Char)) (h : Spelling c toks) :
+    (∀ f ∈ eui64Formats, (f.sep = [c] ∨ (f.sep = [] ∧ toks.length = 1)) → f.groups = toks.length →
+      (∀ t ∈ toks, f.lo ≤ t.length ∧ t.length ≤ f.hi) →
+      ofAny (.str ([c].intercalate toks)) (some 48) = .error .addrFormat) ∧
+    (∀ f ∈ macFormats, (f.sep = [c] ∨ (f.sep = [] ∧ toks.length = 1)) → f.groups = toks.length →
+      (∀ t ∈ toks, f.lo ≤ t.length ∧ t.length ≤ f.hi) →
+      ofAny (.str ([c].intercalate toks)) (some 64) = .error .addrFormat) := by
+  constructor
+  · intro f hf hsep hg hl
+    obtain ⟨_, _, _, _, hno, _, _⟩ := spellings64 f hf c toks h hsep hg hl
+    rw [ofAny_some48]
+    simp only [setExplicit, strToInt, if_true, hno]
+  · intro f hf hsep hg hl
+    have hnone := parse_none eui64Formats eui64_fmts_ok c toks h (by
+      intro g hgm ⟨hgg, hgl⟩
+      match toks, h.ne with
+      | t :: r, _ =>
+        have a := hgl t (by simp)
+        have b := hl t (by simp)
+        rcases cross' g hgm f hf (by rw [hgg, hg]) with x | x <;> omega)
+    have hno : strToInt64 ([c].intercalate toks) = .error .addrFormat := by rw [strToInt64_eq, hnone]
+    rw [ofAny_some64]
+    simp only [setExplicit, strToInt, show ¬ (64 = 48) by decide, if_false, hno]
+
 end NV.C08
